@@ -184,23 +184,27 @@ class LTSSMController(Elaboratable):
         tasks_on_entry = {}
 
 
-        def transition_to_state(state):
+        def transition_to_state(state, *, due_to_reset=False):
             """ FSM helper that handles transitions to the given state.
 
             Automatically handles any "on entry" conditions for the given state.
             """
 
-            # Clear our "time-in-state" counter, and some of our mode flags.
-            m.d.ss += [
-                cycles_in_state         .eq(0),
-                self.request_hot_reset  .eq(0)
-            ]
+            # A (warm) reset takes priority over every other transition; so a reset that arrives in the
+            # same cycle as another event is never lost.
+            with m.If(Const(1) if due_to_reset else ~self.in_usb_reset):
 
-            # If we have any additional entry conditions for the given state, apply them.
-            if state in tasks_on_entry:
-                m.d.ss += tasks_on_entry[state]
+                # Clear our "time-in-state" counter, and some of our mode flags.
+                m.d.ss += [
+                    cycles_in_state         .eq(0),
+                    self.request_hot_reset  .eq(0)
+                ]
 
-            m.next = state
+                # If we have any additional entry conditions for the given state, apply them.
+                if state in tasks_on_entry:
+                    m.d.ss += tasks_on_entry[state]
+
+                m.next = state
 
 
         def transition_on_timeout(timeout, *, to):
@@ -220,7 +224,7 @@ class LTSSMController(Elaboratable):
             # If we're in USB reset, we're actively receiving warm reset signaling; and we should reset
             # to the Rx.Detect.Reset state.
             with m.If(self.in_usb_reset):
-                transition_to_state("Rx.Detect.Reset")
+                transition_to_state("Rx.Detect.Reset", due_to_reset=True)
 
 
         #
@@ -311,6 +315,8 @@ class LTSSMController(Elaboratable):
             # detect whether we're connected to another SuperSpeed transciever via a cable, so
             # we don't waste time performing link training if our link isn't there.
             with m.State("Rx.Detect.Active"):
+                handle_warm_resets()
+
                 m.d.comb += [
                     self.tx_electrical_idle    .eq(1),
                     self.perform_rx_detection  .eq(1)
@@ -326,6 +332,8 @@ class LTSSMController(Elaboratable):
             # We'll wait here until our next detection cycle, saving the power of performing
             # continuous detections.
             with m.State("Rx.Detect.Quiet"):
+                handle_warm_resets()
+
                 m.d.comb += self.tx_electrical_idle.eq(1)
 
                 # TODO: count our number of failed attempts; and disable
@@ -339,6 +347,8 @@ class LTSSMController(Elaboratable):
             # begin exchanging LFPS messages; giving the two sides the opportunity to sync up and
             # establish initial DC characteristics. [USB 3.2r1: 7.5.4.3]
             with m.State("Polling.LFPS"):
+                handle_warm_resets()
+
                 m.d.comb += self.tx_electrical_idle.eq(1)
 
 
